@@ -394,6 +394,34 @@ def run(ctx):
                         over_rows = any(v_ is not None and sym.contains(v_, lambda y: y[0] == "call" and y[1] == "str::rsplit" and y[2][1] == ("int", 47, "char"))
                                         for (nm_, pth_), v_ in snap.items())
                         okr = over_rows and loop_counter(pps, pb, idx) == (0, 1)
+                if not okr and sq[0] == "sq":
+                    # the ranks walked as the constant list of all ranks (element k has index k) in a loop that pulls exactly
+                    # one '/'-separated row, from the end, per iteration and parses that row: row k from the end is rank k
+                    from .c06 import norm_each
+                    RANK_T = T + "rank::Rank"
+                    if norm_each(sq[2], f.adts) == ("each", RANK_T):
+                        for (fid_, hdr_), snap in p.pre_loop.items():
+                            fnk_ = snap.get(("_fn", ()))
+                            lb_ = f.bodies.get(fnk_[1]) if fnk_ else None
+                            walks = [v_ for (nm_, pth_), v_ in snap.items() if nm_ != "_fn" and v_ is not None and v_[0] == "iter" and norm_each(("deref", ("elem", v_[1])), f.adts) == ("each", RANK_T)]
+                            fresh = [nm_ for (nm_, pth_), v_ in snap.items() if nm_ != "_fn" and v_ is not None and not pth_ and v_[0] == "call" and v_[1] == "str::rsplit" and v_[2][1] == ("int", 47, "char")]
+                            if lb_ is None or not walks or len(fresh) != 1:
+                                continue
+                            li_ = [i_ for i_ in range(len(lb_.locals)) if lb_.local_name(i_) == fresh[0]]
+                            if len(li_) != 1:
+                                continue
+
+                            def row_pulls(path, fid, upto=None):
+                                return [ev_ for ev_ in (path.events if upto is None else path.events[:upto])
+                                        if ev_.kind == "call" and ev_.name.endswith("Iterator>::next") and "Split<" in ev_.name and ev_.args and
+                                        ev_.args[0][0] == "ptr" and ev_.args[0][1] == ("L", fid, li_[0])]
+                            mine = row_pulls(p, fid_, e.idx)
+                            every = True
+                            for p2 in pps:
+                                for (f2, h2), s2 in p2.pre_loop.items():
+                                    if h2 == hdr_ and s2.get(("_fn", ())) == fnk_ and p2.end == "loopback" and p2.end_loop == (f2, h2):
+                                        every = every and len(row_pulls(p2, f2)) == 1
+                            okr = len(mine) == 1 and every and mine[0].ret is not None and sym.contains(piece, lambda y: y == mine[0].ret)
                 okf = sq[0] == "sq" and sym.contains(sq[1], lambda y: y[0] == "call" and y[1].endswith("File::try_index"))
                 ctx.check(okr and okf, "reader:rank-from-last-row", "rank indices are not assigned from the last '/'-separated row (rsplit + enumerate) / files by a counter through File::try_index", loc(pb))
     ctx.floor("placement calls in the reader", nplace, 2)
@@ -482,7 +510,14 @@ def run(ctx):
     ctx.check(seen_up == {True, False}, "writer:castle-cases", "castling letter writer lacks an upper- or lower-case path", where)
     # reader
     cb = f.need(g.stage_for(B + "::from_fen", "castling"))
-    cps = sym.SymExec(f, cb, inline=lambda n: False if n in g.W else None, peel=True, count_next=True, max_paths=200000).run()
+    # loop-free private helpers only this stage uses (the decoding of one letter moved into a function of its own) are
+    # read as part of it whatever their size
+    from .names import names as role_names
+    try:
+        own_c = role_names(f).exclusive_helpers(cb.key)
+    except Exception:
+        own_c = set()
+    cps = sym.SymExec(f, cb, inline=lambda n: False if n in g.W else (True if n in own_c else None), peel=True, count_next=True, max_paths=200000).run()
     plain = {}
     shred = 0
     for p in cps:
